@@ -72,8 +72,8 @@ C08_Q = [
 DIFF = "same bytes, same reader state: neutral settings vs solver-chosen settings (5 switches), both the real slice reader; "
 C16_Q = [
     H("k_name_len_n8", "trim_xml_start/trim_xml_end kernels, <=8 bytes", []),
-    H("r16_transform_n6", "reference side: ref_step(settings) is the documented transformation of ref_step(neutral) for every input <=6 bytes, 5 switches, 3 states (pure reference code)",
-      ["dropped text followed by markup"], cost=3),
+    H("r16_transform_n5", "reference side: ref_step(settings) is the documented transformation of ref_step(neutral) for every input <=5 bytes, 5 switches, 3 states (pure reference code)",
+      ["dropped text followed by markup"], cost=6),
     H("e_comment_n10", "emit_bang(Comment) on every scanner output <=10 bytes (check_comments)", ["DoubleHyphen"], cost=2),
     H("s1_text_n4", STEP + "InsideText, <=4 bytes (trimming)", ["Text", "Eof"], cost=5),
     H("s16_text_finding_n4", STEP + "InsideText <=4 bytes, ONLY whitespace-only text directly before markup with trim_text_end && !trim_text_start (the region of the known finding)",
@@ -85,6 +85,7 @@ C16_Q = [
     H("s1_comment_n4", STEP + "'!--'+<=4 bytes (comment checking)", ["Comment", "IllFormedError"], cost=5),
 ]
 C16_T = [
+    H("r16_transform_n6", "reference side, inputs <=6 bytes", ["dropped text followed by markup"], cost=9, timeout_thorough=3600),
     H("d16_tag_n3", DIFF + "start/empty tag <=3 bytes; expand_empty_elements symbolic (both runs real, no reference)", ["empty element expanded"], cost=9, timeout_thorough=3600),
     H("d16_end_n3", DIFF + "end tag <=3 bytes; trim_markup_names_in_closing_tags symbolic", ["end name actually trimmed"], cost=9, timeout_thorough=3600),
     H("d16_comment_n3", DIFF + "'!--'+<=3 bytes; check_comments symbolic", ["double hyphen reported"], cost=9, timeout_thorough=3600),
